@@ -105,9 +105,13 @@ P = {
          'Coq: order theorems; exhaustive lattice correspondence; all-pairs/all-triples checks'),
  'C16': ('proof', 'Proved at the exact instance for all finite segments: intersection answers None exactly for disjoint closed segments and every '
          'returned point lies on both (crossing, parallel and collinear cases); for every instance with the order laws the point lies in both '
-         'boxes. possible_intersection is tied to the model exhaustively on the lattice (43 200 configurations) and on float pairs; all '
-         'clauses checked against exact rational geometry. The one-ulp bump (N2) is a known finding.', '§7 C16',
-         'Coq: intersection_exact_all + clamp; exhaustive lattice correspondence'),
+         'boxes. The step itself at the exact instance: disjoint closed segments are left untouched with code 0, a single meeting point '
+         'with a shared left/right endpoint or at an endpoint of each segment divides nothing, and every event the step creates lies at ONE '
+         'point, the common point returned (C16_new_events_at_one_point; the one-ulp bump is the identity over exact arithmetic). The '
+         'overlap arm (typing, division at the overlap ends) and order independence are NOT proved. possible_intersection is tied to the '
+         'model exhaustively on the lattice (43 200 configurations) and on float pairs; all clauses checked against exact rational '
+         'geometry. The one-ulp bump (N2) is a known finding on floats.', '§7 C16',
+         'Coq: intersection_exact_all, clamp, point-arm theorems of possible_intersection; exhaustive lattice correspondence'),
  'C17': ('proof', 'Full statement proved in Coq for the model (C17_full, no axioms): for every strict total order and every history the '
          'shape-exact model of the splay map returns what a strictly sorted association list returns, len = number of keys, iteration '
          'strictly increasing, lookups never change the element a node identity denotes. Tied to lib/src/splay exhaustively: every tree '
